@@ -52,25 +52,30 @@ def expect(s):
         return ("either",) if s == "" else ("raise",)
     if isinstance(s, list):
         return ("either",)          # 2-lists are supported "without advertising it"
+    if isinstance(s, dict):
+        return ("either",) if len(s) == 0 else ("raise",)     # {} is one more falsy input (the library's tests want None)
     if isinstance(s, tuple):
         if len(s) == 0:
             return ("either",)
         if len(s) != 2:
             return ("raise",)
         a, b = s
+        open_element = False
         for x in (a, b):
             if x is None:
                 continue
             if isinstance(x, bool):
-                return ("either",)
-            if isinstance(x, float) and x != 0.0:
+                open_element = True
+            elif isinstance(x, float):
+                if x != 0.0:
+                    return ("raise",)
+                open_element = True
+            elif isinstance(x, (str, list, tuple, dict)) and len(x) == 0:
+                open_element = True     # an empty element: the library reads every falsy input as "unset"
+            elif not is_int(x) or x < 0:
                 return ("raise",)
-            if isinstance(x, float):
-                return ("either",)
-            if not is_int(x):
-                return ("raise",)
-            if x < 0:
-                return ("raise",)
+        if open_element:
+            return ("either",)
         if not a and not b:
             return ("either",)      # (None,None), (0,0), (0,None), (None,0): "both empty"
         if a and not b:
